@@ -436,3 +436,125 @@ def implied_true_calls(body, block, _depth=0, _seen=None):
             out.append(c)
             out += implied_true_calls(body, c.bb, _depth + 1, _seen)
     return out
+
+
+# ---------------------------------------------------------------------------------------------
+# A three-valued forward analysis over whole bool locals: F (0), T (1), TOP (None).  Used for
+# "once X has been observed the result is false" rules that must not depend on whether the code
+# returns early or accumulates a flag.
+
+class BoolFlow:
+    """Start at (bb, stmt index) with the given {local: 0|1} facts (everything else unknown), run
+    to a fixpoint with switch refinement on whole bool locals.  in_state[bb] is the join over the
+    feasible paths from the start; blocks not in in_state are not reachable on those paths."""
+
+    def __init__(self, body, start_bb, start_si, facts):
+        self.body = body
+        self.in_state = {}
+        self.ret_values = []   # (bb, si, value, operand) for every `_0 = Result::Ok(x)` reached
+        self._run(start_bb, start_si, dict(facts))
+
+    @staticmethod
+    def _join(a, b):
+        # missing key = unknown
+        return {k: v for k, v in a.items() if k in b and b[k] == v}
+
+    def _val(self, st, op):
+        c = const_int(op)
+        if c is not None:
+            return c if c in (0, 1) else None
+        pl = op_place(op)
+        if pl is None or pl["p"]:
+            return None
+        return st.get(pl["l"])
+
+    def _transfer(self, st, s):
+        if s["k"] != "assign":
+            return
+        pl = s["place"]
+        if pl["p"]:
+            return
+        l = pl["l"]
+        rv = s["rv"]
+        v = None
+        if rv["k"] == "use":
+            v = self._val(st, rv["a"][0])
+        elif rv["k"] == "un" and rv.get("op") == "Not":
+            x = self._val(st, rv["a"][0])
+            v = None if x is None else 1 - x
+        elif rv["k"] == "bin" and rv.get("op") in ("BitAnd", "BitOr") and rv.get("lty") == "bool":
+            x, y = self._val(st, rv["a"][0]), self._val(st, rv["a"][1])
+            if rv["op"] == "BitAnd":
+                v = 0 if (x == 0 or y == 0) else (1 if (x == 1 and y == 1) else None)
+            else:
+                v = 1 if (x == 1 or y == 1) else (0 if (x == 0 and y == 0) else None)
+        if v is None:
+            st.pop(l, None)
+        else:
+            st[l] = v
+
+    def _run(self, sb, ssi, facts):
+        body = self.body
+        work = [(sb, ssi, facts)]
+        first = True
+        while work:
+            bb, si, st = work.pop()
+            if not first or si == 0:
+                old = self.in_state.get(bb)
+                if old is not None:
+                    j = self._join(old, st)
+                    if j == old:
+                        continue
+                    st = j
+                self.in_state[bb] = dict(st)
+            first = False
+            st = dict(st)
+            stmts = body.stmts(bb)
+            for i in range(si, len(stmts)):
+                self._transfer(st, stmts[i])
+            t = body.term(bb)
+            k = t["k"]
+            if k == "switch":
+                v = self._val(st, t["d"]) if t.get("dty") == "bool" else None
+                targets = []
+                if v is None:
+                    targets = [a[1] for a in t["arms"]] + [t["otherwise"]]
+                else:
+                    hit = [a[1] for a in t["arms"] if a[0] == v]
+                    targets = hit if hit else [t["otherwise"]]
+                # refine: on a bool switch over a whole local, the arm fixes its value
+                pl = op_place(t["d"])
+                for tg in targets:
+                    if tg is None:
+                        continue
+                    st2 = dict(st)
+                    if t.get("dty") == "bool" and pl is not None and not pl["p"] and "move" not in t["d"]:
+                        arm = [a[0] for a in t["arms"] if a[1] == tg]
+                        if len(arm) == 1 and tg != t["otherwise"]:
+                            st2[pl["l"]] = arm[0]
+                        elif tg == t["otherwise"] and len(t["arms"]) == 1 and t["arms"][0][0] in (0, 1):
+                            st2[pl["l"]] = 1 - t["arms"][0][0]
+                    work.append((tg, 0, st2))
+                continue
+            if k == "call":
+                d = t.get("dest")
+                if d is not None and not d["p"]:
+                    st.pop(d["l"], None)
+            if k == "yield":
+                ra = t.get("resume_arg")
+                if ra is not None and not ra["p"]:
+                    st.pop(ra["l"], None)
+            for tg in body._term_succ(t):
+                if k in ("call", "drop", "assert") and tg == t.get("unwind"):
+                    continue
+                work.append((tg, 0, dict(st)))
+
+    def value_at(self, bb, si, op):
+        """Abstract value of operand `op` just before statement si of block bb (None = unknown or unreachable)."""
+        if bb not in self.in_state:
+            return "unreachable"
+        st = dict(self.in_state[bb])
+        stmts = self.body.stmts(bb)
+        for i in range(0, si):
+            self._transfer(st, stmts[i])
+        return self._val(st, op)
